@@ -83,7 +83,10 @@ class Ctx:
 
     def __init__(self, preset=(), pending=None, qtimeout=20000, max_decisions=4000):
         self.solver = z3.Solver()
-        self.solver.set('timeout', int(qtimeout))
+        self.qtimeout = int(qtimeout)
+        self.fallbacks = 0
+        self.mixed_int = False      # rounding introduced Int variables: the incremental core times out on those, use one-shot queries
+        self.solver.set('timeout', min(int(qtimeout), 4000))
         self.preset = list(preset)
         self.decisions = []
         self.pending = pending if pending is not None else []
@@ -146,15 +149,28 @@ class Ctx:
     def sat(self, *extra):
         self.checks += 1
         t = time.time()
-        self.solver.push()
-        try:
+        r = 'unknown'
+        if not self.mixed_int:
+            self.solver.push()
+            try:
+                for e in extra:
+                    self.solver.add(e)
+                r = str(self.solver.check())
+                m = self.solver.model() if r == 'sat' else None
+            finally:
+                self.solver.pop()
+        if r == 'unknown':
+            # the incremental core gives up early on some mixed Int/Real (mod, to_int) and nonlinear queries that the
+            # one-shot solver (with its preprocessing tactics) decides at once: retry there with the full budget
+            s2 = z3.Solver()
+            s2.set('timeout', int(self.qtimeout))
+            s2.add(self.solver.assertions())
             for e in extra:
-                self.solver.add(e)
-            r = str(self.solver.check())
-            m = self.solver.model() if r == 'sat' else None
-        finally:
-            self.solver.pop()
-            self.ztime += time.time() - t
+                s2.add(e)
+            r = str(s2.check())
+            m = s2.model() if r == 'sat' else None
+            self.fallbacks += 1
+        self.ztime += time.time() - t
         return r, m
 
     def assume(self, e):
@@ -481,6 +497,7 @@ class SReal:
     # rounding -----------------------------------------------------------
     def _toint(self, kind):
         c = Ctx.cur
+        c.mixed_int = True
         k = c.fresh(kind, 'I', register=False)
         x = self.zreal()
         kr = z3.ToReal(k)
